@@ -109,8 +109,12 @@ func (s *lockingStream) setup(r *tr.Rng) {
 	s.push(tr.NewOp("end", "hook.lock.end", "height", 1, "time", s.now))
 }
 
+// noHuge: the application-layer profile keeps powers far below 2^60 (beyond that lies known finding
+// F6b, after which a real chain is halted and nothing is meaningful)
+var noHuge bool
+
 func amt(r *tr.Rng) *big.Int {
-	if r.Intn(100) < 3 {
+	if r.Intn(100) < 3 && !noHuge {
 		switch r.Intn(3) {
 		case 0:
 			return new(big.Int).Lsh(big.NewInt(1), 255)
@@ -191,6 +195,9 @@ func (s *lockingStream) genReq(r *tr.Rng) *tr.Op {
 			w := uint64(tr.Pick(r, 0, 1, 1, 2, 10, 1000, 1<<40))
 			if r.Chance(2) {
 				w = 1 << 63
+			}
+			if noHuge && w > 1000 {
+				w = 3
 			}
 			t := s.pickTok(r)
 			if string(t) == string(s.tokens[0]) && w != 1<<63 {
